@@ -7,7 +7,7 @@ REAL_ALL = ['rtamt ANTLR parser + AST builder', 'rtamt pastifier + horizon visit
             'rtamt specification facade (public API)']
 STUBS_ALL = ['simulated sensor clocks', 'simulated plant values', 'transport/batching', 'recorder', 'reference models (oracles)']
 
-VARS = ['a', 'b', 'c']
+VARS = ['a', 'b', 'c', 'd']
 
 PAST_OPS = set(sg.TERM_UN + sg.TERM_BIN + ('pred',) + sg.BOOL_UN + sg.BOOL_BIN + sg.EVENT + sg.SHIFT_PAST + sg.PAST_UN
                + ('since', 'once_b', 'historically_b', 'since_b'))
